@@ -157,24 +157,8 @@ func c02ValidateChain(r *Run, fn *ssa.Function) {
 		r.Check("ValidateChain:forbidden-extension-probe", ext != "" && glob("make:map[string]*[(asn1.ObjectIdentifier).String("+ext+".Id)]*", k) && strings.Count(k, "(asn1.ObjectIdentifier).String(") == 1, r.FnPos(fn), "probes the OID of "+ext+" ← leaf.Extensions[i]")
 	}
 	c02MapSet(r, fn, "ValidateChain:forbidden-extension-set", rej, "(asn1.ObjectIdentifier).String(p1.rejectExtIds[*])")
-	// required EKUs: with a non-empty list, no hit rejects
-	eku := "make:map[x509.ExtKeyUsage]*[*]*"
-	r.CheckCases(fn, "ValidateChain:required-EKU", CaseTable{
-		Atoms: []RuleAtom{{Name: "n", OrdA: "0", OrdB: "len(p1.extKeyUsages)"}, {Name: "hit", Pat: eku}},
-		Class: func(v map[string]string) string {
-			if v["n"] == "<" && !boolIs(v, "hit") {
-				return "list non-empty, no leaf EKU in it"
-			}
-			return "ok"
-		},
-		Want:    map[string]func(*Run, *ssa.Return) (bool, string){"list non-empty, no leaf EKU in it": wantErr(true)},
-		Unreach: map[string][]ssa.Instruction{"list non-empty, no leaf EKU in it": vi}, Reach: map[string][]ssa.Instruction{"ok": vi},
-		Shared: map[string]bool{"ok": true},
-	})
-	for _, k := range r.bindAtom(fn, boolAtom(eku)) {
-		r.Check("ValidateChain:required-EKU-probe", glob("make:map[x509.ExtKeyUsage]*["+leaf+".ExtKeyUsage[*]]*", k), r.FnPos(fn), "probes "+clipStr(k, 160))
-	}
-	c02MapSet(r, fn, "ValidateChain:required-EKU-set", eku, "p1.extKeyUsages[*]")
+	// required EKUs: with a non-empty list, no hit rejects (set probe, slices.Contains or scan of the configured list)
+	c02RequiredEKU(r, fn, leaf, vi)
 
 	// every raw certificate is parsed; a fatal error rejects; the parsed chain holds all of them in order
 	parse := r.OneCall(fn, "ValidateChain:ParseCertificate", "x509.ParseCertificate")
@@ -303,7 +287,7 @@ func c02MapSet(r *Run, fn *ssa.Function, key, probeGlob, keyGlob string) {
 		eachInstr(fn, func(in ssa.Instruction) {
 			if mu, ok := in.(*ssa.MapUpdate); ok && (mu.Map == lk.X || r.D.D(mu.Map) == r.D.D(lk.X)) {
 				n++
-				r.Check(key, glob(keyGlob, r.D.D(mu.Key)) && (member || r.D.D(mu.Value) == "true"), r.Where(mu), "set["+r.D.D(mu.Key)+"] ← "+r.D.D(mu.Value))
+				r.Check(key, anyGlob(keyGlob, r.D.D(mu.Key)) && (member || r.D.D(mu.Value) == "true"), r.Where(mu), "set["+r.D.D(mu.Key)+"] ← "+r.D.D(mu.Value))
 			}
 		})
 	}
@@ -361,6 +345,9 @@ func c02ChainsEquivalent(r *Run, fn *ssa.Function) {
 		Want: map[string]func(*Run, *ssa.Return) (bool, string){"len(in) ∉ {len(v), len(v)−1}": no},
 	})
 	eq := "(*x509.Certificate).Equal(p0[*], p1[*])"
+	if len(CallsTo(fn, "(*x509.Certificate).Equal")) == 0 && c02EqualFuncForm(r, fn) {
+		return
+	}
 	r.FailEdge(fn, "chainsEquivalent", EdgeSpec{Name: "certificates-differ", Atom: boolAtom(eq), Bad: "F", Want: no})
 	for _, c := range CallsTo(fn, "(*x509.Certificate).Equal") {
 		a, b := r.D.D(CallArgs(c)[0]), r.D.D(CallArgs(c)[1])
